@@ -52,7 +52,10 @@ func (n *JournalNode) Open(ctx context.Context, req *fuse.OpenRequest, resp *fus
 
 	f, err := n.db.OpenJournal(ctx)
 	if os.IsNotExist(err) {
-		return nil, syscall.ENOENT
+		// The kernel opened a cached directory entry whose file is gone (e.g. the
+		// database was just dropped and the kernel has not been notified yet).
+		// ESTALE makes it look the name up again, and create the file if asked to.
+		return nil, syscall.ESTALE
 	} else if err != nil {
 		return nil, err
 	}
